@@ -1,0 +1,9 @@
+//go:build verif
+
+package ovmf
+
+// UnacceptedMemRanges exposes unacceptedMemRanges for the verification harness (property C05):
+// small-scope exhaustive comparison of the interval subtraction with its model and specification.
+func UnacceptedMemRanges(privateResources []GuestPhysicalRegion, ramResources []GuestPhysicalRegion) []GuestPhysicalRegion {
+	return unacceptedMemRanges(privateResources, ramResources)
+}
